@@ -27,6 +27,14 @@ class WireDraws:
     Every draw is appended to the `taken` list of every registered FifoRun sink (slot 0: loss draw, slot 1: delay)
     and, for the oracle, to a per-wire list keyed by `env.active_process`."""
 
+    # the rest of the `random` module (classes, other functions) is what it is: only `uniform` is recorded
+    Random, SystemRandom = random.Random, random.SystemRandom
+
+    def __getattr__(self, name):
+        if name.startswith('__'):
+            raise AttributeError(name)
+        return getattr(random, name)
+
     def __init__(self, env, rseed, delays, grid=False):
         self.env = env
         self.grid = grid          # draws from {0, 1/8, .., 7/8}: a draw equal to the loss rate does occur
@@ -77,7 +85,7 @@ GAPS = [0, 0, 0, 1, 1, 2, 5, 0.5, 0.1, 10, 3]
 
 
 def gen_delays(rng):
-    mode = rng.choice(['const', 'decr', 'zero', 'random', 'mixed', 'dyadic'])
+    mode = rng.choice(['const', 'decr', 'zero', 'random', 'mixed', 'dyadic', 'tenths'])
     if mode == 'const':
         return mode, [rng.choice([1, 2, 5, 0.5, 0.1, 3.3])]
     if mode == 'decr':
@@ -93,15 +101,18 @@ def gen_delays(rng):
         return mode, [rng.random() * rng.choice([1, 10, 0.01]) for _ in range(rng.randint(3, 17))]
     if mode == 'dyadic':
         return mode, [rng.choice([0, 0.5, 1, 1.5, 2, 4, 8]) for _ in range(rng.randint(2, 9))]
+    if mode == 'tenths':
+        # non-dyadic instants with delays that vary a lot: later packets keep catching up with their predecessor
+        return mode, [rng.randrange(0, 13) / 10 for _ in range(rng.randint(3, 12))]
     return mode, [rng.choice(DELAYS) for _ in range(rng.randint(2, 9))]
 
 
-def gen_sources(rng, nmax=3):
+def gen_sources(rng, nmax=3, tenths=False):
     out = []
     for _ in range(rng.randint(1, nmax)):
         script = []
-        for _ in range(rng.randint(1, 8)):
-            gap = rng.choice(GAPS + [round(rng.random() * 6, 3)])
+        for _ in range(rng.randint(1, 8) if not tenths else rng.randint(4, 12)):
+            gap = rng.choice(GAPS + [round(rng.random() * 6, 3)]) if not tenths else rng.choice([0, 0.1, 0.1, 0.2, 0.3, 0.7])
             burst = [(rng.randrange(3), rng.choice([40, 100, 1500])) for _ in range(rng.choice([1, 1, 1, 2, 3, 5]))]
             script.append((gap, burst))
         out.append(script)
@@ -116,7 +127,7 @@ def gen_case(rng, cid):
         loss = rng.choice([0.125, 0.25, 0.5, 0.75, 0.875, 1])
     mode, delays = gen_delays(rng)
     c = {'cid': str(cid), 'kind': kind, 'loss': loss, 'rseed': rng.randrange(1 << 30), 'grid_draws': grid, 'delay_mode': mode,
-         'delays': delays, 'sources': gen_sources(rng)}
+         'delays': delays, 'sources': gen_sources(rng, tenths=mode == 'tenths')}
     c['own_ids'] = kind == 'wire' and rng.random() < 0.35
     if kind == 'cable':
         c['sources2'] = gen_sources(rng, 2) if rng.random() < 0.8 else []
@@ -144,6 +155,15 @@ class Endpoint:
         pass
 
 
+def untap_if_blind(r):
+    """public attributes the stepping harness needs and the wire does not have; the put tap (it snapshots `store`) is taken
+    off again in that case"""
+    missing = [a for a in ('action', 'store') if not hasattr(r.dev, a)]
+    if missing:
+        r.dev.put = r._orig_put
+    return missing
+
+
 def run_impl(c):
     """returns {sub-case id: FifoRun}; every FifoRun carries .raised, .wd (the draw recorder)"""
     env = Environment()
@@ -153,12 +173,14 @@ def run_impl(c):
     wire_mod.random = wd
     runs = {}
     raised = None
+    blind = []
     try:
         if c['kind'] == 'wire':
             w = Wire(env, wd.delay_dist, c['loss'])
             r = FifoRun(env, w, snap_wire, Sink())
             wd.sinks.append(r.draws)
             runs[c['cid']] = r
+            blind = untap_if_blind(r)
             for script in c['sources']:
                 # sources may number their packets independently (ids are unique per source, not per wire)
                 env.process(feeder(env, w.put, script, [0] if c.get('own_ids') else counter))
@@ -169,6 +191,7 @@ def run_impl(c):
             r1 = FifoRun(env, cable.wire1, snap_wire, Sink())
             r2 = FifoRun(env, cable.wire2, snap_wire, Sink())
             wd.sinks += [r1.draws, r2.draws]
+            blind = untap_if_blind(r1) + untap_if_blind(r2)
             runs[c['cid'] + 'a'] = r1
             runs[c['cid'] + 'b'] = r2
             echoed = [0]
@@ -184,8 +207,14 @@ def run_impl(c):
                 env.process(feeder(env, lambda p: a.out.put(p), script, counter))
             for script in c.get('sources2', []):
                 env.process(feeder(env, lambda p: b.out.put(p), script, counter))
+        # the stepping harness reads the server's progress off `action` (the wire's process) and `store`; a wire without
+        # them cannot be replayed against the LTS (reported as a broken correspondence) - the black-box cases below, which
+        # use nothing but `put`, `out` and `env.run()`, still judge it
         try:
-            run_many(env, list(runs.values()))
+            if blind:
+                env.run()
+            else:
+                run_many(env, list(runs.values()))
         except BaseException as x:          # the property says the run never raises
             raised = f'{type(x).__name__}: {x}'
     finally:
@@ -193,6 +222,7 @@ def run_impl(c):
     for r in runs.values():
         r.raised = raised
         r.wd = wd
+        r.blind = blind
     return runs
 
 
@@ -215,6 +245,8 @@ def oracle_wire(c, run, name):
     if run.raised:
         fail(f'the run raised {run.raised}', 'wire-raised')
         return fails
+    if run.blind:
+        return fails              # draws cannot be attributed to this wire: see the black-box oracle
     loss = c['loss']
     proc = run.dev.action
     lossd = list(run.wd.loss_calls.get(proc, []))
@@ -293,9 +325,259 @@ def oracle(c, runs):
         fails += oracle_wire(c, r, 'wire ' + name)
     if c['kind'] == 'cable':
         r1, r2 = list(runs.values())
-        if r1.dev is r2.dev or r1.dev.store is r2.dev.store:
+        if r1.dev is r2.dev or (hasattr(r1.dev, 'store') and r1.dev.store is getattr(r2.dev, 'store', None)):
             fails.append({'what': 'the two wires of the cable share state', 'signature': 'cable-shared'})
     return fails
+
+
+# ---- black-box cases (oracle only, not replayed by the model) ----------------------------------------
+# One Environment holds one or two wires / cables built with the same arguments and fed the SAME traffic; nothing but the
+# constructor, `put`, `out` and `env.run()` is used, so these cases judge any implementation of the interface, also one
+# whose internals the stepping harness cannot see.  The module-level `random` inside onl.netdev.wire is replaced by a
+# seeded `random.Random` instance (every method of the module is there) that records the `uniform` draws.
+
+ASSUMPTIONS.append(
+    'black-box cases: the k-th delay a bare wire draws belongs to its k-th packet that is not discarded (the oracle stands down when the counts differ); '
+    'a cable gets a constant delay because its two directions share one `delay_dist`. "Independently with probability p" is judged only through events '
+    'of probability <= 2^-24 under independence ((p^2+(1-p)^2)^n for two equal loss patterns over n packets - two devices with the same traffic, or one '
+    'device under two seeds of the `random` module -, (1-p)^n / p^n for a wire that keeps / discards everything); nothing else is claimed about the distribution')
+
+
+class BBRandom(random.Random):
+    Random, SystemRandom = random.Random, random.SystemRandom
+
+    def __init__(self, seed):
+        super().__init__(seed)
+        self.calls = []
+
+    def uniform(self, a, b):
+        x = a + (b - a) * super().random()
+        self.calls.append(x)
+        return x
+
+    def __getattr__(self, name):
+        if name.startswith('__'):
+            raise AttributeError(name)
+        return getattr(random, name)
+
+
+class BBWire:
+    """what can be seen of one wire from outside"""
+
+    def __init__(self, name, delays):
+        self.name = name
+        self.arrivals, self.deliveries = [], []      # (instant, packet)
+        self.delays = delays                         # [(instant, d)] drawn by this wire alone, or None (shared delay_dist)
+
+    def pattern(self):
+        got = {id(p) for _, p in self.deliveries}
+        return tuple(id(p) in got for _, p in self.arrivals)
+
+
+class BBEnd:
+    out = None
+
+    def __init__(self, env, wire):
+        self.env, self.wire = env, wire
+
+    def put(self, packet):
+        self.wire.deliveries.append((self.env.now, packet))
+
+
+def bb_case(rng, cid):
+    lossy = rng.random() < 0.4
+    topo = rng.choice(['cables', 'cables', 'wires']) if lossy else rng.choice(['wires', 'wires', 'wires', 'cables'])
+    c = {'cid': f'b{cid}', 'kind': 'bb', 'topo': topo, 'n': 2 if lossy else rng.choice([1, 1, 2]),
+         'rseed': rng.randrange(1 << 30), 'rseed2': rng.randrange(1 << 30)}
+    shape = rng.choice(['tenths', 'tenths', 'floats', 'mixed'])
+    def gap():
+        if shape == 'tenths':
+            return rng.choice([0, 0.1, 0.1, 0.2, 0.3, 0.7])
+        if shape == 'floats':
+            return rng.choice([0, rng.random() * 0.5, rng.random() * 2])
+        return rng.choice(GAPS + [0.1, 0.3])
+    def delay():
+        if shape == 'tenths':
+            return rng.randrange(0, 13) / 10
+        if shape == 'floats':
+            return rng.random() * rng.choice([0.3, 2, 5])
+        return rng.choice(DELAYS + [0.7, 0.3])
+    if lossy:
+        # enough packets per direction that two independent loss patterns cannot coincide by chance (see `coincidence`)
+        c['loss'] = rng.choice([0.5, 0.5, 0.5, 0.3, 0.6])
+        npk = rng.randint(44, 64)
+    else:
+        c['loss'] = rng.choice([None, None, None, 0, 0.0, 0.2, 0.9, 1])
+        npk = rng.randint(4, 30)
+    script, left = [], npk
+    while left > 0:
+        b = min(left, rng.choice([1, 1, 1, 2, 3]))
+        # direction 0: dev1 -> dev2 (the only one of a bare wire), 1: the reverse wire of a cable
+        script.append((gap(), [(rng.randrange(2) if topo == 'cables' and rng.random() < 0.6 else 0, rng.choice([40, 100, 1500])) for _ in range(b)]))
+        left -= b
+    if lossy and topo == 'cables':
+        script = [(g, [(d, sz) for _, sz in burst for d in (0, 1)]) for g, burst in script]     # every packet both ways
+    c['sources'] = [script]
+    # a cable hands one `delay_dist` to both directions: its draws cannot be attributed from outside, so it gets a constant
+    c['delays'] = [[delay()] if topo == 'cables' else [delay() for _ in range(rng.randint(1, 12))] for _ in range(c['n'])]
+    if lossy and rng.random() < 0.5:
+        c['delays'] = [c['delays'][0]] * c['n']          # identical devices: same arguments, same traffic, same timing
+    return c
+
+
+def run_bb(c, rseed):
+    """-> (wires: [BBWire], raised, number of `random.uniform` draws)"""
+    env = Environment()
+    rnd = BBRandom(rseed)
+    old = wire_mod.random
+    wire_mod.random = rnd
+    wires, entries = [], []          # entries[k] = {direction: (put, BBWire)} of device k
+    raised = None
+    try:
+        for k in range(c['n']):
+            seq, drawn, n = c['delays'][k], [], [0]
+            def dist(seq=seq, drawn=drawn, n=n):
+                d = seq[n[0] % len(seq)]
+                n[0] += 1
+                drawn.append((env.now, d))
+                return d
+            if c['topo'] == 'wires':
+                w = BBWire(f'wire {k}', drawn)
+                dev = Wire(env, dist, c['loss'])
+                dev.out = BBEnd(env, w)
+                wires.append(w)
+                entries.append({0: (dev.put, w)})
+            else:
+                fwd, rev = BBWire(f'cable {k} forward', None), BBWire(f'cable {k} reverse', None)
+                fwd.const = rev.const = seq[0]
+                cable = Cable(env, dist, c['loss'])
+                a, b = BBEnd(env, rev), BBEnd(env, fwd)        # a receives what the reverse wire delivers
+                cable.set_endpoints(a, b)
+                wires += [fwd, rev]
+                entries.append({0: (a.out.put, fwd), 1: (b.out.put, rev)})
+        def feed(script):
+            pid = 0
+            for gap, burst in script:
+                yield env.timeout(gap)
+                for direction, size in burst:
+                    pid += 1
+                    for e in entries:                            # the same traffic on every device
+                        put, w = e.get(direction, e[0])
+                        pkt = make_packet(env, pid, direction, size)
+                        w.arrivals.append((env.now, pkt))
+                        put(pkt)
+        for script in c['sources']:
+            env.process(feed(script))
+        with quiet():
+            env.run()
+    except BaseException as x:
+        raised = f'{type(x).__name__}: {x}'
+    finally:
+        wire_mod.random = old
+    return wires, raised, len(rnd.calls), rnd.calls
+
+
+def coincidence(p, n):
+    """probability that two independent loss patterns over n packets, each packet lost with probability p, are equal"""
+    return (p * p + (1 - p) * (1 - p)) ** n
+
+
+def oracle_bb(c):
+    fails = []
+    def fail(what, sig):
+        fails.append({'what': what, 'signature': sig})
+    wires, raised, ndraws, draws = run_bb(c, c['rseed'])
+    if raised:
+        fail(f'the run raised {raised}', 'wire-raised')
+        return fails, wires
+    loss = c['loss']
+    for w in wires:
+        acc, dep = w.arrivals, w.deliveries
+        delivered = {id(p): t for t, p in dep}
+        # exactly once; "never reordered": the deliveries are a subsequence of the arrivals, in arrival order
+        pos = {id(p): k for k, (_, p) in enumerate(acc)}
+        seq = [pos.get(id(p), -1) for _, p in dep]
+        if len(delivered) != len(dep):
+            fail(f'{w.name}: a packet was delivered twice', 'wire-duplicate')
+            continue
+        if -1 in seq:
+            fail(f'{w.name}: a packet was delivered that never entered', 'wire-foreign')
+            continue
+        bad = next((k for k in range(1, len(seq)) if seq[k - 1] > seq[k]), None)
+        if bad is not None:
+            (t1, p1), (t2, p2) = dep[bad - 1], dep[bad]
+            fail(f'{w.name}: reordered - packet {p1.packet_id} entered at {acc[seq[bad - 1]][0]!r} after packet {p2.packet_id} (entered at '
+                 f'{acc[seq[bad]][0]!r}) and was delivered before it (at {t1!r}, the earlier packet at {t2!r})', 'wire-order')
+            continue
+        if not loss and len(dep) != len(acc):
+            fail(f'{w.name}: no loss rate, {len(acc)} packets entered, {len(dep)} were delivered', 'wire-not-delivered')
+            continue
+        # "delivered at max(a + d, delivery time of the previous packet)": the k-th packet that was not discarded has the k-th
+        # delay the wire drew.  `max` does no arithmetic: when a + d lies clearly before the previous delivery the packet is
+        # due at exactly that instant, bit for bit; otherwise a + d may be off by the rounding of the wire's own sum (4 ulp)
+        surv = [(a, p) for a, p in acc if id(p) in delivered]
+        if w.delays is not None:
+            ds = [d for _, d in w.delays]
+            if len(ds) != len(surv):
+                continue                  # delays drawn for discarded packets too: nothing to attribute them by
+        else:
+            ds = [w.const] * len(surv)
+        prev = None
+        for (a, p), d in zip(surv, ds):
+            t = delivered[id(p)]
+            lit = a + d
+            if prev is not None and lit < prev and not ulp_close(lit, prev):
+                if t != prev:
+                    fail(f'{w.name}: packet {p.packet_id} entered at {a!r} with delay {d!r}: a + d = {lit!r} lies before the previous delivery '
+                         f'{prev!r}, so it is due at exactly that instant; it was delivered at {t!r}', 'wire-clamp-exact')
+                    break
+            elif not ulp_close(t, lit if prev is None or lit > prev else prev):
+                fail(f'{w.name}: packet {p.packet_id} entered at {a!r} with delay {d!r}, previous delivery {prev!r}: delivered at {t!r}, '
+                     f'max(a + d, previous delivery) = {max(lit, prev) if prev is not None else lit!r}', 'wire-delivery-literal')
+                break
+            prev = t
+    if fails:
+        return fails, wires
+    # "with loss rate p each packet is independently discarded with probability p"
+    if loss and 0 < loss < 1:
+        busy = [w for w in wires if w.arrivals]
+        # one wire alone consulted the module-level `random` once per packet, in order: discarded iff draw < p
+        if len(busy) == 1 and ndraws == len(busy[0].arrivals):
+            w = busy[0]
+            for (a, p), x, kept in zip(w.arrivals, draws, w.pattern()):
+                if (x < loss) == kept:
+                    fail(f'{w.name}: packet {p.packet_id}: loss draw {x!r} vs loss rate {loss!r} but the packet was {"" if kept else "not "}delivered',
+                         'wire-loss-rule')
+                    break
+        # every wire built with the loss rate loses by it: n packets all kept has probability (1-p)^n, all discarded p^n
+        for w in busy:
+            n, kept = len(w.arrivals), len(w.deliveries)
+            if kept == n and (1 - loss) ** n <= 2.0 ** -24:
+                fail(f'{w.name} (loss rate {loss}) delivered every one of {n} packets (chance {(1 - loss) ** n:.1e})', 'wire-loss-never')
+            elif kept == 0 and loss ** n <= 2.0 ** -24:
+                fail(f'{w.name} (loss rate {loss}) discarded every one of {n} packets (chance {loss ** n:.1e})', 'wire-loss-always')
+        if fails:
+            return fails, wires
+        # two wires / two cables carrying the same traffic do not lose the same packets ...
+        pats = [(w, w.pattern()) for w in busy]
+        for i in range(len(pats)):
+            for j in range(i + 1, len(pats)):
+                (w1, p1), (w2, p2) = pats[i], pats[j]
+                n = min(len(p1), len(p2))
+                if coincidence(loss, n) <= 2.0 ** -24 and p1[:n] == p2[:n]:
+                    fail(f'{w1.name} and {w2.name} (loss rate {loss}) discarded exactly the same {p1[:n].count(False)} of their first {n} packets '
+                         f'(positions {[k for k in range(n) if not p1[k]][:12]}...): not independent (chance {coincidence(loss, n):.1e})', 'wire-loss-lockstep')
+        # ... and the pattern is a matter of the random draws ("with any random seed"): another seed, another pattern
+        if not fails and any(coincidence(loss, len(w.arrivals)) <= 2.0 ** -24 for w in busy):
+            wires2, raised2, _, _ = run_bb(c, c['rseed2'])
+            for w1, w2 in zip(wires, wires2):
+                n = len(w1.arrivals)
+                if not raised2 and len(w2.arrivals) == n and coincidence(loss, n) <= 2.0 ** -24 and w1.pattern() == w2.pattern():
+                    fail(f'{w1.name} (loss rate {loss}) discarded the same {w1.pattern().count(False)} of {n} packets (positions '
+                         f'{[k for k in range(n) if not w1.pattern()[k]][:12]}...) under two different seeds of the `random` module '
+                         f'({ndraws} draws were taken from it): the losses do not follow its draws', 'wire-loss-ignores-seed')
+                    break
+    return fails, wires
 
 
 def run(ctx):
@@ -305,6 +587,9 @@ def run(ctx):
         cases = [j['case']] if j.get('case') else [d['case'] for d in j.get('broken_correspondence', [])]
     else:
         cases = [gen_case(rng, i) for i in range(600 if ctx.quick else 12000)]
+        cases += [bb_case(rng, i) for i in range(240 if ctx.quick else 4000)]
+    bbcases = [c for c in cases if c.get('kind') == 'bb']
+    cases = [c for c in cases if c.get('kind') != 'bb']
     text, allruns = [], {}
     for c in cases:
         runs = run_impl(c)
@@ -328,7 +613,10 @@ def run(ctx):
             dts = [t for t, _ in r.departures]
             if r.lost or any(x == y for x, y in zip(dts, dts[1:])):
                 nt = True
-            if a != b:
+            if r.blind:
+                dis.append({'case': c, 'detail': f'wire {sid} has no public {"/".join(sorted(set(r.blind)))}: it cannot be stepped against the LTS',
+                            'impl': [], 'model': (b or [])[:10]})
+            elif a != b:
                 i = next((i for i in range(max(len(a), len(b or []))) if i >= len(a) or not b or i >= len(b) or a[i] != b[i]), 0)
                 dis.append({'case': c, 'detail': f'wire {sid} line {i}: impl `{a[i] if i < len(a) else None}` model `{b[i] if b and i < len(b) else None}`',
                             'impl': a[:300], 'model': (b or [])[:300]})
@@ -354,6 +642,28 @@ def run(ctx):
             orc.append(f)
         if len(samples) < 2 and nt:
             samples.append({'case': c, 'actions': {sid: r.acts[:30] for sid, r in runs.items()}})
+    bbhist, bborc = collections.Counter(), []
+    for c in bbcases:
+        fs, wires = oracle_bb(c)
+        bbhist['topo:' + c['topo']] += 1
+        bbhist['loss:' + ('None' if c['loss'] is None else 'zero' if not c['loss'] else 'one' if c['loss'] >= 1 else 'p')] += 1
+        bbhist['packets'] += sum(len(w.arrivals) for w in wires)
+        for w in wires:
+            ts = [t for t, _ in w.deliveries]
+            bbhist['caught_up_with_predecessor'] += sum(1 for x, y in zip(ts, ts[1:]) if x == y)
+        if c['loss'] and 0 < c['loss'] < 1 and any(coincidence(c['loss'], len(w.arrivals)) <= 2.0 ** -24 for w in wires):
+            bbhist['loss_patterns_compared'] += 1
+        for f in fs:
+            f['case'] = c
+            if shrunk < 3 and not ctx.replay:
+                shrunk += 1
+                sig = f['signature']
+                small = shrink(c, ['sources'], lambda cc: any(g['signature'] == sig for g in oracle_bb(cc)[0]))
+                f2 = next((g for g in oracle_bb(small)[0] if g['signature'] == sig), None)
+                if f2:
+                    f = dict(f2, case=small, shrunk_from=c['cid'])
+            bborc.append(f)
+    orc = bborc + orc             # the black-box failures name the clause most directly: they get the replay files
     cov = {'evaluations': len(cases), 'distinct_nontrivial': nontriv,
            'rule': 'seeded random wire/cable configurations (loss None/0/1/p, delay sequences constant/decreasing/zero/random/dyadic) x arrival workloads '
                    '(1-3 sources per direction, bursts, arrivals while earlier packets propagate, echo traffic on cables); non-trivial = distinct case '
@@ -361,4 +671,6 @@ def run(ctx):
            'samples': samples, 'traces_validated_against_impl': sum(len(r) for r in allruns.values()) - len(dis),
            'action_lines_replayed': sum(len(r.acts) for rs in allruns.values() for r in rs.values()),
            'operation_histogram': dict(sorted(hist.items()))}
+    cov['oracle_only_cases'] = {'evaluations': len(bbcases), 'what': 'black-box environments of 1-2 wires / cables with identical traffic (put/out/env.run only): '
+                                'order, exact clamping to the previous delivery, loss patterns across devices and across seeds', 'histogram': dict(sorted(bbhist.items()))}
     return {'coverage': cov, 'disagreements': dis, 'oracle_failures': orc}
